@@ -250,6 +250,17 @@ def _run(prop, reg, tier, seed, work, known, t0, replay):
                         break
                 for sig in pending:
                     log("[repro] rejection %s did not reproduce" % sig)
+                    # keep what was seen, for diagnosis (not evidence: nothing the real code repeated)
+                    try:
+                        r0 = pending[sig][0]
+                        d = os.path.join(core.CACHE, "unreproduced")
+                        os.makedirs(d, exist_ok=True)
+                        with open(os.path.join(d, "%s-%s-%d.json" % (prop, leg.name, int(time.time()))), "w") as fh:
+                            json.dump({"signature": sig, "leg": leg.name, "tier": tier, "seed": seed,
+                                       "info": infos.get(r0["t"]), "rejected": r0,
+                                       "trace": [_strip(e) for e in traces[r0["t"]]]}, fh, indent=1)
+                    except Exception as ex:  # a diagnosis aid must never change the verdict
+                        log("[repro] could not keep the unreproduced trace: %s" % ex)
                 if pending and not confirmed:
                     raise Inconclusive("unreproduced rejection(s): %s" % sorted(pending))
             else:
